@@ -867,6 +867,7 @@ func corpus() [][]string {
 		{"new 1 0", "0 exec 1 10 9 plain", "2 exec 2 11 5 plain", "4 shutdown p", "6 exec 3 12 9 plain", "8 shutdown -", "10 shutdown d", "end 14"},
 		{"new 1 0", "0 exec 1 10 9 plain", "2 shutdown cd", "4 cancel 1", "end 12"},
 		{"new 1 0", "0 exec 1 10 7 plain", "2 shutdown -", "4 exec 1 11 9 plain", "6 cancel 1", "end 12"},
+		{"new 1 0", "0 exec 1 10 9 plain", "2 shutdown p", "4 exec 1 11 9 plain", "6 cancel 1", "end 12"},
 		// cancel racing a ready timer: the poller is parked in the hook, the element is cancelled, the poller goes on
 		{"new 1 0", "0 arm 10", "2 add 10 1 plain", "4 ecancel 10", "6 release 10", "end 10"},
 		{"new 1 0", "0 arm 10", "2 add 10 1 plain", "4 ecancel 10", "6 release 10", "8 add 11 9 plain", "end 12"},
